@@ -1205,7 +1205,7 @@ fn run_sweep_other_key(focus: &'static str, seed: u64, index: u64) -> CaseOut {
             let got = sut.cache.get(&2);
             counts.inc("reads_after_the_old_deadline_of_a_key_whose_ttl_was_changed");
             if got != Some(vk) {
-                findings.push(Finding { props: vec!["C09", "C10", "C08"], signature: format!("C10/key-lost-at-its-old-deadline/{}", if extend { "ttl-extended" } else { "ttl-removed" }),
+                findings.push(Finding { props: vec!["C09", "C10", "C08", "C03"], signature: format!("C10/key-lost-at-its-old-deadline/{}", if extend { "ttl-extended" } else { "ttl-removed" }),
                     detail: format!("key 2 had its time-to-live {} by an acknowledged put_or_update while the sweeper was busy in the same TTL shard; after the clock passed the old deadline it reads {:?}", if extend { "extended" } else { "removed" }, got),
                     witness: witness(&client.log.iter().collect::<Vec<_>>()), inconclusive: false });
             }
